@@ -30,6 +30,8 @@ def run(ctx):
     r4_containment(ctx)
     r5_shared_state(ctx)
     r6_pickled(ctx)
+    from . import c04
+    c04.r7_held_learners(ctx, c04.family(ctx), rule="C03.R7")
 
 
 def evaluate_calls(fn):
